@@ -217,9 +217,11 @@ func report(w *World, res *checkResult, tier string, seed int, cfg SolverCfg, t0
 			violations++
 			fmt.Printf("VIOLATION property=%s replay=%s%s\n", prop, rp.Path, suffix)
 			fmt.Printf("  obligation %s [%s] at %s: %s\n", bad.ID, bad.Status, bad.Pos, bad.Text)
-		} else if rp.Outcome == "reproduced" {
+		} else if rp.Outcome == "reproduced" || bad.Status == "refuted" {
+			// an obligation family that is not in the baseline (new code path): a violation when the solver
+			// exhibits a counterexample (sat), undecided when it merely fails to prove it
 			violations++
-			fmt.Printf("VIOLATION property=%s replay=%s\n", prop, rp.Path)
+			fmt.Printf("VIOLATION property=%s replay=%s%s\n", prop, rp.Path, suffix)
 			fmt.Printf("  obligation %s [%s] at %s: %s\n", bad.ID, bad.Status, bad.Pos, bad.Text)
 		} else {
 			line := fmt.Sprintf("UNDECIDED property=%s %s [%s] at %s (new obligation family, no replayable counterexample): %s", prop, bad.ID, bad.Status, bad.Pos, bad.Text)
